@@ -184,9 +184,21 @@ class FragmentsOnCompositeTypesChecker(ValidationVisitor):
     union), the type condition must also be a composite type.
     """
 
+    def _type_condition(self, node):
+        # Type conditions are not visited as nodes of their own so this is
+        # where an unknown type must be reported.
+        try:
+            return self.schema.get_type_from_literal(node.type_condition)
+        except UnknownType as err:
+            self.add_error('Unknown type "%s"' % err, [node.type_condition])
+            return None
+
     def enter_inline_fragment(self, node):
         if node.type_condition:
-            type_ = self.schema.get_type_from_literal(node.type_condition)
+            type_ = self._type_condition(node)
+            if type_ is None:
+                raise SkipNode()
+
             if not isinstance(type_, GraphQLCompositeType):
                 self.add_error(
                     'Fragment cannot condition on non composite type "%s".'
@@ -196,8 +208,8 @@ class FragmentsOnCompositeTypesChecker(ValidationVisitor):
                 raise SkipNode()
 
     def enter_fragment_definition(self, node):
-        type_ = self.schema.get_type_from_literal(node.type_condition)
-        if not isinstance(type_, GraphQLCompositeType):
+        type_ = self._type_condition(node)
+        if type_ is not None and not isinstance(type_, GraphQLCompositeType):
             self.add_error(
                 'Fragment "%s" cannot condition on non composite type "%s".'
                 % (node.name.value, type_),
@@ -403,15 +415,16 @@ class PossibleFragmentSpreadsChecker(ValidationVisitor):
         self._fragment_types = dict()  # type: Dict[str, GraphQLType]
 
     def enter_document(self, node):
-        self._fragment_types.update(
-            {
-                definition.name.value: self.schema.get_type_from_literal(
-                    definition.type_condition
-                )
-                for definition in node.definitions
-                if type(definition) == _ast.FragmentDefinition
-            }
-        )
+        for definition in node.definitions:
+            if type(definition) == _ast.FragmentDefinition:
+                try:
+                    self._fragment_types[
+                        definition.name.value
+                    ] = self.schema.get_type_from_literal(
+                        definition.type_condition
+                    )
+                except UnknownType:
+                    pass
 
     def enter_fragment_spread(self, node):
         name = node.name.value
